@@ -948,6 +948,18 @@ def cli_surface(base):
             rc, _, err = sim.gitai("blame", *o, "f.txt", env_extra={"GIT_PAGER": "cat"})
             rcg, _, _ = sim.realgit("blame", *o, "f.txt")
             res[name] = {"git-ai": rc, "git": rcg}
+        # prepare_ranges (model) vs the exit status of the binary, file of 3 lines and the empty file
+        sim.write("empty.txt", "")
+        commit(sim, "empty")
+        tie = []
+        for total, fname in ((3, "f.txt"), (0, "empty.txt")):
+            for rs in ([], [(0, 1)], [(1, 0)], [(2, 1)], [(1, 3)], [(1, 4)], [(3, 3)], [(4, 4)], [(1, 1), (3, 3)], [(1, 1), (3, 4)]):
+                o = []
+                for a, b in rs:
+                    o += ["-L", f"{a},{b}"]
+                rc, _, _ = sim.gitai("blame", *o, fname, env_extra={"GIT_PAGER": "cat"})
+                tie.append((total, rs, rc == 0))
+        res["_prepare_tie"] = tie
         return res
     finally:
         shutil.rmtree(sim.base, ignore_errors=True)
@@ -1235,6 +1247,12 @@ def run(ctx):
     if ok2:
         known_seen.add(K2)
     surface = cli_surface(ctx.scratch)
+    ptie = surface.pop("_prepare_tie", [])
+    if ctx.model_ok:
+        pm = C.run_cases(C.driver_path("blame"), "c09-prepare",
+                         [(str(i), f"{t} " + C.sx([[a, b] for a, b in rs])) for i, (t, rs, _) in enumerate(ptie)], shards=1)
+        bad = [(t, rs, ok, pm.get(str(i))) for i, (t, rs, ok) in enumerate(ptie) if (pm.get(str(i), "").startswith("(ok")) != ok]
+        obligations.append(("tie:prepare_ranges vs exit status of `git-ai blame -L ...`", not bad and len(ptie) > 0, str(bad[:3])))
 
     return {
         "obligations": obligations,
